@@ -83,11 +83,11 @@ Qed.
 
 (* DESIGN section 6 items 1-2: the unrepaired write loop leaks a reserved sequence.  Witness by vm_compute. *)
 Definition leak_ops : list wop :=
-  [ {| w_tag := 1; w_parent := None; w_deleted := false; w_push := [(1, 1)]; w_reject := false; w_fail_after := []; w_fail_write := false |};
-    {| w_tag := 2; w_parent := Some (1, 1); w_deleted := false; w_push := []; w_reject := false; w_fail_after := []; w_fail_write := false |};
-    {| w_tag := 3; w_parent := None; w_deleted := false; w_push := [(1, 7)]; w_reject := false; w_fail_after := []; w_fail_write := false |};
-    {| w_tag := 4; w_parent := None; w_deleted := false; w_push := [(1, 8)]; w_reject := false; w_fail_after := []; w_fail_write := false |};
-    {| w_tag := 5; w_parent := Some (1, 1); w_deleted := false; w_push := []; w_reject := false; w_fail_after := []; w_fail_write := false |} ].
+  [ {| w_tag := 1; w_parent := None; w_deleted := false; w_push := [(1, 1)]; w_reject := false; w_fail_after := []; w_fail_write := false; w_opt := no_opts |};
+    {| w_tag := 2; w_parent := Some (1, 1); w_deleted := false; w_push := []; w_reject := false; w_fail_after := []; w_fail_write := false; w_opt := no_opts |};
+    {| w_tag := 3; w_parent := None; w_deleted := false; w_push := [(1, 7)]; w_reject := false; w_fail_after := []; w_fail_write := false; w_opt := no_opts |};
+    {| w_tag := 4; w_parent := None; w_deleted := false; w_push := [(1, 8)]; w_reject := false; w_fail_after := []; w_fail_write := false; w_opt := no_opts |};
+    {| w_tag := 5; w_parent := Some (1, 1); w_deleted := false; w_push := []; w_reject := false; w_fail_after := []; w_fail_write := false; w_opt := no_opts |} ].
 Definition leak_tab : digtab := [((2, Some (1, 1)), 22); ((5, Some (1, 1)), 55)].
 Definition leak_sched : list sstep :=
   [Prepare 0; Write 0; Prepare 1; Prepare 2; Write 2; Write 1; Prepare 1; Prepare 3; Write 3; Prepare 4; Write 4; Write 1; Prepare 1]%nat.
@@ -136,9 +136,9 @@ Qed.
    replaces the stored document by one built from the stale snapshot: writer 2's acknowledged revision is gone
    and the stored sequence went backwards. *)
 Definition res_ops : list wop :=
-  [ {| w_tag := 1; w_parent := None; w_deleted := true; w_push := [(2, 18); (1, 17)]; w_reject := false; w_fail_after := []; w_fail_write := false |};
-    {| w_tag := 2; w_parent := Some (2, 18); w_deleted := false; w_push := []; w_reject := false; w_fail_after := []; w_fail_write := false |};
-    {| w_tag := 3; w_parent := Some (2, 18); w_deleted := true; w_push := []; w_reject := false; w_fail_after := []; w_fail_write := false |} ].
+  [ {| w_tag := 1; w_parent := None; w_deleted := true; w_push := [(2, 18); (1, 17)]; w_reject := false; w_fail_after := []; w_fail_write := false; w_opt := no_opts |};
+    {| w_tag := 2; w_parent := Some (2, 18); w_deleted := false; w_push := []; w_reject := false; w_fail_after := []; w_fail_write := false; w_opt := no_opts |};
+    {| w_tag := 3; w_parent := Some (2, 18); w_deleted := true; w_push := []; w_reject := false; w_fail_after := []; w_fail_write := false; w_opt := no_opts |} ].
 Definition res_tab : digtab := [((2, Some (2, 18)), 132); ((3, Some (2, 18)), 330)].
 Definition res_sched : list sstep := [Prepare 0; Write 0; Prepare 1; Prepare 2; Write 2; Write 1]%nat.
 
